@@ -5,6 +5,7 @@ import (
 	"fmt"
 	"math"
 	"strings"
+	"sync"
 	"testing"
 
 	"github.com/TimothyStiles/poly/primers"
@@ -97,16 +98,36 @@ var gridOligo = []float64{1e-9, 1e-7, 1e-5, 1e-3}
 var gridNa = []float64{1e-3, 1e-2, 1e-1, 1}
 var gridMg = []float64{0, 1e-3, 1e-2, 1e-1}
 
+// terminalRule is the reading of "terminal-A/T term" that the tree under test follows, found once per process
+// on an oligo where the two readings differ and nothing else enters (ACGG: 5' A, 3' G, not self-complementary):
+// 0 = a penalty for a 3'-terminal A/T only (what poly documents), 1 = one for each terminal A.T pair (the
+// literature), -1 = neither (then every point is judged against both, and fails both). The statement speaks of one
+// formula: whichever reading it is, it is the same for every oligo.
+var terminalRule = sync.OnceValue(func() int {
+	tm, dH, dS := primers.SantaLucia("ACGG", 500e-9, 50e-3, 0)
+	for r, both := range []bool{false, true} {
+		wtm, wH, wS := reference("ACGG", 500e-9, 50e-3, 0, both)
+		if close(dH, wH) && close(dS, wS) && close(tm, wtm) {
+			return r
+		}
+	}
+	return -1
+})
+
 func checkPoint(upper, in string, oligo, na, mg float64) (float64, error) {
 	tm, dH, dS := primers.SantaLucia(in, oligo, na, mg)
 	var firstErr error
-	for _, both := range []bool{false, true} {
+	for r, both := range []bool{false, true} {
+		if rule := terminalRule(); rule >= 0 && rule != r {
+			continue
+		}
 		wtm, wH, wS := reference(upper, oligo, na, mg, both)
 		if close(dH, wH) && close(dS, wS) && close(tm, wtm) {
 			return tm, nil
 		}
 		if firstErr == nil {
-			firstErr = vk.Errf("SantaLucia(%q, oligo=%g, Na=%g, Mg=%g) = (Tm %.9g, dH %.9g, dS %.9g); nearest-neighbour reference gives (Tm %.9g, dH %.9g, dS %.9g)", in, oligo, na, mg, tm, dH, dS, wtm, wH, wS)
+			firstErr = vk.Errf("SantaLucia(%q, oligo=%g, Na=%g, Mg=%g) = (Tm %.9g, dH %.9g, dS %.9g); nearest-neighbour reference gives (Tm %.9g, dH %.9g, dS %.9g) [terminal-A/T term as on ACGG: %s]", in, oligo, na, mg, tm, dH, dS, wtm, wH, wS,
+				map[bool]string{false: "3' end only", true: "both ends"}[both])
 		}
 	}
 	return tm, firstErr
